@@ -373,6 +373,28 @@ func runC07(res *hx.Result, rng *hx.Rng, tier string, outdir string) {
 			add(c07job{entry: k8SigRead, sig: "m", t: wg.Scalar("m"), input: dyn, desc: fmt.Sprintf("directed: dynamic value whose signature is nested %d deep", d), deadline: 20000})
 		}
 	}
+	// directed: structures whose member names collide once cleaned for Go (equal, equal up to case, equal to
+	// the name another one is renamed to: a, A, a_0, a_1, A_2 ...): the reflection decoder asks the signature
+	// for its Go type, which must not panic whatever the names are
+	{
+		pool := []string{"a", "A", "a_0", "a_1", "a_2", "A_1", "A_2", "x", "X_2", "a_"}
+		enc := make([]byte, 12)
+		for _, n1 := range pool {
+			for _, n2 := range pool {
+				for _, n3 := range pool {
+					if n1 != n2 && n2 != n3 && n1 != n3 && rng.Chance(0.5) {
+						continue // all distinct: half of them
+					}
+					sg := fmt.Sprintf("(iii)<S,%s,%s,%s>", n1, n2, n3)
+					st := wg.Struct("S", []string{n1, n2, n3}, wg.Scalar("i"), wg.Scalar("i"), wg.Scalar("i"))
+					add(c07job{entry: k8Refl, sig: sg, t: st, input: enc, desc: "directed: member names that collide"})
+				}
+			}
+		}
+		i4 := func() *wg.Ty { return wg.Scalar("i") }
+		add(c07job{entry: k8Refl, sig: "(iiii)<S,a,a,a_0,a_1>", t: wg.Struct("S", []string{"a", "a", "a_0", "a_1"}, i4(), i4(), i4(), i4()), input: make([]byte, 16), desc: "directed: member names that collide"})
+		add(c07job{entry: k8Refl, sig: "((ii)<T,b,B>(ii)<T,B,b>)<S,t,T>", t: wg.Struct("S", []string{"t", "T"}, wg.Struct("T", []string{"b", "B"}, i4(), i4()), wg.Struct("T", []string{"B", "b"}, i4(), i4())), input: make([]byte, 16), desc: "directed: member names that collide"})
+	}
 	// resources that grow with the NESTING DEPTH of the input (found in review round 4):
 	// (a) signature.Parse recurses once per nesting level with no bound: the goroutine stack grows by more
 	//     than 500 bytes per level, the runtime's 1 GB limit is reached near 2,000,000 levels (a 2 MB
